@@ -148,7 +148,10 @@ class Rig:
         import twisted.internet.threads as threads
         from twisted.internet import task
 
+        from . import store as storemod
+
         cached_dot_parser()
+        storemod.use_real_digest_binaries(False)
         self.state_mod, self.farm, self.sched = state, farm, sched
         self.ctx = dawgie.context
         self.stack = contextlib.ExitStack()
@@ -163,6 +166,7 @@ class Rig:
         self.errors = []  # exceptions inside background steps / callbacks
         self.trail = []
         self.pipelines = 0
+        self.worked = 0
         self.rev = 0
         self._saved = {
             'defer': threads.deferToThread,
@@ -267,6 +271,28 @@ class Rig:
         step.d.callback(res)
         for f in errs:
             self.errors.append((step.name + ':callback', f.value))
+        return True
+
+    def work(self, target='T1'):
+        '''one real execution of algorithm p.A (worker.Context.run in this
+        process): stores a value and the run's metrics, so that introspection
+        has something to look at'''
+        import importlib
+
+        import dawgie.db
+        import dawgie.pl.worker
+
+        if not self.fsm.is_pipeline_active():
+            return False
+        dawgie.db.add(target)
+        runid = dawgie.db.next()
+        factory = getattr(importlib.import_module(f'{self.eng.base}.p'),
+                          'task')
+        ctx = dawgie.pl.worker.Context(('localhost', rig.FARM_PORT),
+                                       self.ctx.git_rev)
+        with self.store.worker_side():
+            ctx.run(factory, 0, 'p.A', runid, target, {})
+        self.worked += 1
         return True
 
     def run_calls(self):
